@@ -73,12 +73,19 @@ func (s *metricSchemaStore) GetSchema(id metric.ID) (schema *metric.Schema, err 
 	if ok {
 		return schema, nil
 	}
+	flushVersion := s.getFlushVersion()
 	schema, err = s.getSchemaFromKV(id)
 	if err != nil {
 		return nil, err
 	}
 	if schema != nil {
-		s.cache.Add(id, schema)
+		// NOTE: only cache the schema if no flush completed after reading it. flush persists new fields/tag keys and purges
+		// the cache under the write lock, a schema of old files which is added after that is stale.
+		s.lock.RLock()
+		if s.flushVersion == flushVersion {
+			s.cache.Add(id, schema)
+		}
+		s.lock.RUnlock()
 	}
 	return
 }
@@ -169,13 +176,16 @@ func (s *metricSchemaStore) getOrCreateSchemaUnderLock(id metric.ID,
 		return schema, nil
 	}
 	schema := lookupSchema
+	inMemory := false
 	if s.immutable != nil {
 		if immutableSchema, ok := s.immutable.Get(key); ok && immutableSchema != nil {
 			schema = immutableSchema
+			inMemory = true
 		}
 	}
-	if schema == nil && s.flushVersion != lookupFlushVersion {
-		// flush completed after lookup, schema maybe moved from memory to kv store
+	if !inMemory && s.flushVersion != lookupFlushVersion {
+		// flush completed after lookup, schema maybe moved from memory to kv store,
+		// and a schema which was looked up from kv store(or cache) before the flush is out of date.
 		var err error
 		schema, err = s.getSchemaFromKV(id)
 		if err != nil {
